@@ -41,7 +41,19 @@ class Store(object):
             with open(os.path.join(self.realdir(), name), 'wb') as f:
                 f.write(data)
 
+    def put_linked(self, name, data, real=False):
+        """The content lives under a content-addressed name without any suffix; `name` is a symbolic link to it (how DVC,
+        git-annex and similar stores present files)."""
+        import hashlib
+        blob = 'blob-' + hashlib.md5(name.encode()).hexdigest()[:10]
+        self.put(blob, data, real=real)
+        self.fs.symlink(blob, name)
+        if real:
+            os.symlink(os.path.join(self.realdir(), blob), os.path.join(self.realdir(), name))
+
     def remove(self, name):
+        if name in self.fs.links:
+            self.fs.files.pop(self.fs.links.pop(name), None)
         self.fs.files.pop(name, None)
         if self.tmp is not None:
             try:
